@@ -89,6 +89,9 @@ int  env_data_calls(void);               /* number of data-path calls on emulate
 /* the emulated-TCP descriptor that carries the connection of peer `fd` etc. */
 int  env_last_tcp_fd_created(void);
 
+/* optional observer of every wrapped call (entry; name + first three arguments cast to long); default NULL */
+extern void (*env_syscall_hook)(const char *name, long a, long b, long c);
+
 /* direct (unwrapped) access for the harness */
 int env_real_close(int fd);
 
